@@ -133,6 +133,26 @@ class Ctx:
                     raise Machinery("vacuity guard: action %s of %s/%s was never taken" % (a, module, cfg))
         return r
 
+    def witnesses(self, module, cfg_pattern, names, workers=4, **kw):
+        """vacuity guards: each named invariant MUST be violated in its own configuration; run concurrently"""
+        import concurrent.futures
+
+        def one(w):
+            return w, tlc.model_check(module, cfg_pattern % w, self.work, workers=workers, coverage=False, tag=w, **kw)
+
+        try:
+            with concurrent.futures.ThreadPoolExecutor(max_workers=max(1, 16 // workers)) as ex:
+                results = list(ex.map(one, names))
+        except tlc.TLCError as e:
+            raise Machinery(str(e))
+        for w, r in results:
+            self.states += r.distinct
+            self.transitions += r.generated
+            self.mc.append(dict(r.summary(), module=module, cfg=cfg_pattern % w, witness=True))
+            inv = w if w.startswith("W_") else "W_" + w
+            if inv not in r.violated and w not in r.violated:
+                raise Machinery("vacuity guard: witness %s of %s was not reached" % (w, module))
+
     # -- E3 ------------------------------------------------------------------------
     def validate(self, module, cfg, scenarios, label=None, shards=16, relevant=None, **kw):
         """Validate scenarios against a trace spec.  Returns the verdict list; rejections are recorded as
